@@ -18,6 +18,7 @@ pub mod s_exec;
 pub mod s_sqlx;
 pub mod s_quote;
 pub mod s_determ;
+pub mod s_dialect;
 
 use common::*;
 use std::io::{BufRead, Write};
@@ -44,6 +45,7 @@ fn streams() -> Vec<(&'static str, GenFn, EvalFn)> {
         ("values", s_sqlx::gen_values, s_sqlx::eval_values),
         ("determ", s_determ::gen, s_determ::eval),
         ("namer", s_determ::gen_namer, s_determ::eval_namer),
+        ("dialect", s_dialect::gen, s_dialect::eval),
         ("c09", s_exec::gen_c09, s_exec::eval_c09),
         ("c01", s_exec::gen_c01, s_exec::eval_c01),
         ("clip", s_exec::gen_clip, s_exec::eval_clip),
@@ -66,7 +68,7 @@ pub fn main() {
     let mode = args[1].as_str();
     let stream = args[2].as_str();
     if mode == "dump" {
-        let v = match stream { "rules" => s_rules::dump_rules(), _ => { eprintln!("unknown dump {stream}"); std::process::exit(2) } };
+        let v = match stream { "rules" => s_rules::dump_rules(), "dialects" => s_dialect::dump_dialects(), _ => { eprintln!("unknown dump {stream}"); std::process::exit(2) } };
         println!("{}", v);
         return;
     }
